@@ -252,8 +252,8 @@ def run(ctx: common.Ctx):
         ctx.corr_float(op, inp, np.asarray(impl), np.asarray(unfmat(o), dtype=float))
 
   probes_grid(ctx, jax, jnp, sh)
+  probes_equations(ctx, jax, jnp, sh, n_configs=ctx.n(1, 12), steps=ctx.n(0, 3))
   if not ctx.quick:
-    probes_equations(ctx, jax, jnp, sh)
     ctx.leanchecker(['DinoProofs.Properties.C09'])
   return ctx.finish(RULE, 'theorems are about the Lean models Dino.SH / Dino.Fourier / Dino.SHEquiv over any '
                     'commutative ring (fields for the eigenvalue operations); sin, cos, sqrt and the Legendre '
@@ -263,6 +263,17 @@ def run(ctx: common.Ctx):
 
 
 # ---------------------------------------------------------------------------- correspondence
+
+
+def corr_bundle(g, L):
+  def f(x, z):
+    out = dict(to_nodal=g.to_nodal(x), to_modal=g.to_modal(z), d_dlon=g.d_dlon(x), laplacian=g.laplacian(x),
+               inverse_laplacian=g.inverse_laplacian(x), cos_lat_d_dlat=g.cos_lat_d_dlat(x),
+               sec_lat_d_dlat_cos2=g.sec_lat_d_dlat_cos2(x))
+    for n in (1, 2, L, L + 2):
+      out[f'clip{n}'] = g.clip_wavenumbers(x, n)
+    return out
+  return f
 
 
 def correspondence(ctx, jax, jnp, sh, al, fourier, add):
@@ -347,6 +358,7 @@ def correspondence(ctx, jax, jnp, sh, al, fourier, add):
       bF = f'{fmat(ff)} {tstr(bf.p)} {fvec(bf.w)}'
       fk = 'FS' if stacked else 'F'
       r2 = float(gr.radius) ** 2
+      jr, jf = jax.jit(corr_bundle(gr, L)), jax.jit(corr_bundle(gf, L))
       for name, x in spectra(rng, pair, kinds=('unit-00', 'unit-sin-top', 'unit-cos-top-diag', 'random-masked',
                                                'random-unmasked') if pi >= 4 or not ctx.quick else None):
         if x.ndim != 2:
@@ -359,45 +371,45 @@ def correspondence(ctx, jax, jnp, sh, al, fourier, add):
         ctx.dist[f'corr:spectrum={name}'] += 1
         add(f'sh9 F iota {L} {pair.pr} {pair.pc} {fmat(x)}', 'iota (harness re-indexing)', inp, xf, 'exactmat')
         add(f'sh9 F uniota {2 * M} {L} {fmat(xf)}', 'uniota (harness re-indexing)', inp, x, 'exactmat')
-        zr = np.asarray(gr.to_nodal(jnp.asarray(x)))
-        zf = np.asarray(gf.to_nodal(jnp.asarray(xf)))
+        z = rng.standard_normal((N, J))
+        if name.startswith('unit'):
+          z = np.asarray(gr.to_nodal(jnp.asarray(x)))
+        zp = pair.padn(z)
+        outr = {k: np.asarray(v) for k, v in jr(jnp.asarray(x), jnp.asarray(z)).items()}
+        outf = {k: np.asarray(v) for k, v in jf(jnp.asarray(xf), jnp.asarray(zp)).items()}
+        zr, zf = outr['to_nodal'], outf['to_nodal']
         add(f'sh9 F synth R {bR} {fmat(x)}', 'RealSphericalHarmonics.inverse_transform', inp, zr)
         add(f'sh9 F synth {fk} {bF} {fmat(xf)}', f'FastSphericalHarmonics.inverse_transform[{fk}]', inp, zf)
-        # the other contraction order of the model on the same data (T9.4 at Float)
-        add(f'sh9 F synth {"F" if stacked else "FS"} {bF} {fmat(xf)}',
-            f'FastSphericalHarmonics.inverse_transform[{fk}] vs the other model path', inp, zf)
-        z = zr if name.startswith('unit') else rng.standard_normal((N, J))
-        zp = pair.padn(z)
+        # the other contraction orders of the model on the same data (T9.4 / T9.5 at Float)
+        for alt in ('F', 'FS', 'FR', 'FSR'):
+          if alt != fk:
+            add(f'sh9 F synth {alt} {bF} {fmat(xf)}',
+                f'FastSphericalHarmonics.inverse_transform[{fk}] vs model path {alt}', inp, zf)
         add(f'sh9 F padn {pair.pn} {pair.pj} {J} {fmat(z)}', 'pad (harness re-indexing)', inp, zp, 'exactmat')
         add(f'sh9 F unpadn {N} {J} {fmat(zp)}', 'unpad (harness re-indexing)', inp, z, 'exactmat')
-        yr = np.asarray(gr.to_modal(jnp.asarray(z)))
-        yf = np.asarray(gf.to_modal(jnp.asarray(zp)))
+        yr, yf = outr['to_modal'], outf['to_modal']
         inz = dict(inp0, z=z.tolist())
         add(f'sh9 F ana R {L} {bR} {fmat(z)}', 'RealSphericalHarmonics.transform', inz, yr)
         add(f'sh9 F ana {fk} {pair.Lw} {bF} {fmat(zp)}', f'FastSphericalHarmonics.transform[{fk}]', inz, yf)
-        add(f'sh9 F ana {"F" if stacked else "FS"} {pair.Lw} {bF} {fmat(zp)}',
-            f'FastSphericalHarmonics.transform[{fk}] vs the other model path', inz, yf)
-        add(f'sh9 F ddlon R {fmat(x)}', 'real_basis_derivative', inp, np.asarray(gr.d_dlon(jnp.asarray(x))))
-        add(f'sh9 F ddlon F {fmat(xf)}', 'real_basis_derivative_with_zero_imag', inp,
-            np.asarray(gf.d_dlon(jnp.asarray(xf))))
-        add(f'sh9 F lap {fbits(r2)} {L} 0 {fmat(x)}', 'Grid.laplacian[real]', inp,
-            np.asarray(gr.laplacian(jnp.asarray(x))))
-        add(f'sh9 F lap {fbits(r2)} {L} {pair.pc} {fmat(xf)}', 'Grid.laplacian[fast]', inp,
-            np.asarray(gf.laplacian(jnp.asarray(xf))))
+        for alt in ('F', 'FS', 'FR', 'FSR'):
+          if alt != fk:
+            add(f'sh9 F ana {alt} {pair.Lw} {bF} {fmat(zp)}',
+                f'FastSphericalHarmonics.transform[{fk}] vs model path {alt}', inz, yf)
+        add(f'sh9 F ddlon R {fmat(x)}', 'real_basis_derivative', inp, outr['d_dlon'])
+        add(f'sh9 F ddlon F {fmat(xf)}', 'real_basis_derivative_with_zero_imag', inp, outf['d_dlon'])
+        add(f'sh9 F lap {fbits(r2)} {L} 0 {fmat(x)}', 'Grid.laplacian[real]', inp, outr['laplacian'])
+        add(f'sh9 F lap {fbits(r2)} {L} {pair.pc} {fmat(xf)}', 'Grid.laplacian[fast]', inp, outf['laplacian'])
         add(f'sh9 F invlap {fbits(r2)} {L} 0 {fmat(x)}', 'Grid.inverse_laplacian[real]', inp,
-            np.asarray(gr.inverse_laplacian(jnp.asarray(x))))
+            outr['inverse_laplacian'])
         add(f'sh9 F invlap {fbits(r2)} {L} {pair.pc} {fmat(xf)}', 'Grid.inverse_laplacian[fast]', inp,
-            np.asarray(gf.inverse_laplacian(jnp.asarray(xf))))
+            outf['inverse_laplacian'])
         for n in (1, 2, L, L + 2):
-          add(f'sh9 F clip {L} 0 {n} {fmat(x)}', 'Grid.clip_wavenumbers[real]', dict(inp, n=n),
-              np.asarray(gr.clip_wavenumbers(jnp.asarray(x), n)))
+          add(f'sh9 F clip {L} 0 {n} {fmat(x)}', 'Grid.clip_wavenumbers[real]', dict(inp, n=n), outr[f'clip{n}'])
           add(f'sh9 F clip {L} {pair.pc} {n} {fmat(xf)}', 'Grid.clip_wavenumbers[fast]', dict(inp, n=n),
-              np.asarray(gf.clip_wavenumbers(jnp.asarray(xf), n)))
+              outf[f'clip{n}'])
         for op, fn in (('cos', 'cos_lat_d_dlat'), ('sec', 'sec_lat_d_dlat_cos2')):
-          add(f'sh9 F dlat R {op} {M} {L} 0 0 {fmat(x)}', f'Grid.{fn}[real]', inp,
-              np.asarray(getattr(gr, fn)(jnp.asarray(x))))
-          add(f'sh9 F dlat F {op} {M} {L} {pair.pr} {pair.pc} {fmat(xf)}', f'Grid.{fn}[fast]', inp,
-              np.asarray(getattr(gf, fn)(jnp.asarray(xf))))
+          add(f'sh9 F dlat R {op} {M} {L} 0 0 {fmat(x)}', f'Grid.{fn}[real]', inp, outr[fn])
+          add(f'sh9 F dlat F {op} {M} {L} {pair.pr} {pair.pc} {fmat(xf)}', f'Grid.{fn}[fast]', inp, outf[fn])
       add(f'sh9 F eig {fbits(r2)} {L} 0', 'Grid.laplacian_eigenvalues[real]', inp0, gr.laplacian_eigenvalues, 'vec')
       add(f'sh9 F eig {fbits(r2)} {L} {pair.pc}', 'Grid.laplacian_eigenvalues[fast]', inp0, gf.laplacian_eigenvalues,
           'vec')
@@ -429,9 +441,333 @@ def correspondence(ctx, jax, jnp, sh, al, fourier, add):
               dict(inp0, rows=int(arr.shape[0])), res, 'str' if res == 'value-error' else 'str-ok')
 
 
+
+# ---------------------------------------------------------------------------- probes on the real code
+
+
+def bundle(sh, g, heavy, poles):
+  """All public Grid operations on (x, y modal; z, z2 nodal) as one function (jitted by the caller)."""
+  def f(x, y, z, z2):
+    out = dict(
+        to_nodal=g.to_nodal(x), to_modal=g.to_modal(z), d_dlon=g.d_dlon(x), laplacian=g.laplacian(x),
+        inverse_laplacian=g.inverse_laplacian(x), clip1=g.clip_wavenumbers(x, 1), clip2=g.clip_wavenumbers(x, 2),
+        cos_lat_d_dlat=g.cos_lat_d_dlat(x), sec_lat_d_dlat_cos2=g.sec_lat_d_dlat_cos2(x),
+        k_cross=g.k_cross((x, y)), integrate=g.integrate(z))
+    for clip in (True, False):
+      out[f'cos_lat_grad[clip={clip}]'] = g.cos_lat_grad(x, clip=clip)
+      out[f'div_cos_lat[clip={clip}]'] = g.div_cos_lat((x, y), clip=clip)
+      out[f'curl_cos_lat[clip={clip}]'] = g.curl_cos_lat((x, y), clip=clip)
+      if heavy:
+        out[f'get_cos_lat_vector[clip={clip}]'] = sh.get_cos_lat_vector(x, y, g, clip=clip)
+        if not poles:
+          out[f'vor_div_to_uv_nodal[clip={clip}]'] = sh.vor_div_to_uv_nodal(g, x, y, clip=clip)
+          out[f'uv_nodal_to_vor_div_modal[clip={clip}]'] = sh.uv_nodal_to_vor_div_modal(g, z, z2, clip=clip)
+    return out
+  return f
+
+
+def cmp_modal(ctx, pair, yf, yr, key, inp, leak=False):
+  """fast result == iota(real result): unpadded block to TOL, row 1 and padding exactly zero."""
+  yf, yr = np.asarray(yf), np.asarray(yr)
+  ctx.evaluations += 1
+  if yf.shape != yr.shape[:-2] + (pair.R, pair.Lw):
+    ctx.fail(key + ':shape', f'{key}: fast result has shape {yf.shape}, real {yr.shape}', inp)
+    return
+  err = dinoutil.relerr(pair.uniota(yf), yr)
+  ctx.expect(err <= TOL, key, f'{key}: fast and real results differ after iota (rel. {err:.3e})', inp)
+  pm = pair.modal_padding_mask(leak_col=leak)
+  bad = yf[..., pm] != 0
+  ctx.expect(not bad.any(), key + ':padding',
+             f'{key}: row 1 / padding of the fast result is not exactly zero (max {np.abs(yf[..., pm]).max() if pm.any() else 0:.3e})',
+             inp)
+  if leak and pair.pc:
+    M, L, _, _ = pair.dims
+    ctx.dist['dlat-leak-into-padding-column-L:' + ('nonzero' if np.any(yf[..., :2 * M, L] != 0) else 'zero')] += 1
+
+
+def cmp_nodal(ctx, pair, zf, zr, key, inp):
+  zf, zr = np.asarray(zf), np.asarray(zr)
+  ctx.evaluations += 1
+  if zf.shape != zr.shape[:-2] + (pair.Nn, pair.Jn):
+    ctx.fail(key + ':shape', f'{key}: fast result has shape {zf.shape}, real {zr.shape}', inp)
+    return
+  err = dinoutil.relerr(pair.unpadn(zf), zr)
+  ctx.expect(err <= TOL, key, f'{key}: fast and real results differ after unpadding (rel. {err:.3e})', inp)
+  pm = pair.nodal_padding_mask()
+  ctx.expect(not (zf[..., pm] != 0).any(), key + ':padding', f'{key}: nodal padding of the fast result is not exactly zero', inp)
+
+
+def probe_pair(ctx, jax, jnp, sh, pair, rng, batch=True, heavy=True):
+  """Every public Grid method on one (real, fast) pair."""
+  M, L, N, J = pair.dims
+  gr, gf = pair.gr, pair.gf
+  inp0 = pair.desc()
+  poles = pair.spacing == 'equiangular_with_poles'
+  J_ = jnp.asarray
+
+  # ---- static attributes
+  with ctx.impl('grid.attributes', inp0):
+    ctx.evaluations += 1
+    ctx.expect(gf.modal_shape == (pair.R, pair.Lw) and pair.R % 2 == 0 and pair.R >= 2 * M and pair.Lw >= L,
+               'grid.modal_shape', f'fast modal shape {gf.modal_shape} cannot hold the real layout', inp0)
+    ctx.expect(np.array_equal(gf.mask, pair.iota(gr.mask)), 'grid.mask', 'fast mask != iota(real mask)', inp0)
+    mf, lf = gf.modal_axes
+    mr, lr = gr.modal_axes
+    ctx.expect(np.array_equal(mf, np.concatenate([mr[:1], [0], mr[1:], np.zeros(pair.pr, int)])) and
+               np.array_equal(lf, np.concatenate([lr, np.zeros(pair.pc, int)])),
+               'grid.modal_axes', 'fast modal axes != iota(real modal axes)', inp0)
+    ctx.expect(np.array_equal(gf.laplacian_eigenvalues, np.concatenate([gr.laplacian_eigenvalues, np.zeros(pair.pc)])),
+               'grid.laplacian_eigenvalues', 'fast eigenvalues != padded real eigenvalues', inp0)
+    for k in (0, 1):
+      ctx.expect(np.array_equal(np.asarray(gf.nodal_axes[k])[:(N, J)[k]], np.asarray(gr.nodal_axes[k])),
+                 'grid.nodal_axes', 'nodal axes differ on the unpadded nodes', inp0)
+    ctx.expect(np.array_equal(np.asarray(gf.cos_lat)[:J], np.asarray(gr.cos_lat)), 'grid.cos_lat', 'cos_lat differs', inp0)
+    with np.errstate(divide='ignore'):
+      ctx.expect(np.array_equal(np.asarray(gf.sec2_lat)[:J], np.asarray(gr.sec2_lat)), 'grid.sec2_lat',
+                 'sec2_lat differs', inp0)
+    qf, qr = np.asarray(gf.quadrature_weights), np.asarray(gr.quadrature_weights)
+    ctx.expect(np.array_equal(qf[:N, :J], qr) and not qf[:, J:].any(), 'grid.quadrature_weights',
+               'quadrature weights differ or padding weights are not zero', inp0)
+    ctx.expect(gf.radius == gr.radius, 'grid.radius', 'radius differs', inp0)
+
+  jitted = {}
+  kinds = None if batch else ('unit-00', 'unit-0top', 'unit-cos1', 'unit-sin-top', 'unit-cos-top-diag',
+                              'random-masked', 'random-unmasked')
+  for name, x in spectra(rng, pair, kinds):
+    lead = x.shape[:-2]
+    y = rng.standard_normal(x.shape) * gr.mask     # a second field for the vector operators
+    z = rng.standard_normal(lead + (N, J))
+    z2 = rng.standard_normal(lead + (N, J))
+    xf, yf, zf, z2f = pair.iota(x), pair.iota(y), pair.padn(z), pair.padn(z2)
+    inp = dict(inp0, spectrum=name, x=x.tolist()) if x.size <= 64 else dict(inp0, spectrum=name, seed_note='large input omitted')
+    ctx.case((pair.key(), 'probe', name, x.tobytes()), nontrivial=pair.nontrivial() or np.count_nonzero(x) >= 2,
+             sample=dict(inp0, spectrum=name))
+    ctx.dist[f'probe:spectrum={name}'] += 1
+    with ctx.impl('grid.exception', inp):
+      if lead not in jitted:
+        jitted[lead] = (jax.jit(bundle(sh, gr, heavy, poles)), jax.jit(bundle(sh, gf, heavy, poles)))
+      fr_, ff_ = jitted[lead]
+      outr = fr_(J_(x), J_(y), J_(z), J_(z2))
+      outf = ff_(J_(xf), J_(yf), J_(zf), J_(z2f))
+      nodal_ops = ('to_nodal', 'vor_div_to_uv_nodal[clip=True]', 'vor_div_to_uv_nodal[clip=False]')
+      leaky = ('cos_lat_d_dlat', 'sec_lat_d_dlat_cos2')
+      for opn in outr:
+        a, b = outf[opn], outr[opn]
+        comps = list(zip(a, b)) if isinstance(a, tuple) else [(a, b)]
+        for fa, ra in comps:
+          if opn == 'integrate':
+            ctx.evaluations += 1
+            if_, ir = np.asarray(fa), np.asarray(ra)
+            ctx.expect(dinoutil.relerr(if_, ir) <= TOL or
+                       np.abs(if_ - ir).max() <= TOL * np.abs(z).sum() * float(gr.radius) ** 2,
+                       'grid.integrate', 'integrals differ', inp)
+          elif opn in nodal_ops:
+            cmp_nodal(ctx, pair, fa, ra, 'grid.' + opn, inp)
+          else:
+            # the raw latitude derivatives write into padding column L (b[:, -1] = 0 hits the padded column)
+            key = 'grid.clip_wavenumbers' if opn in ('clip1', 'clip2') else 'grid.' + opn
+            cmp_modal(ctx, pair, fa, ra, key, inp, leak=opn in leaky or opn.endswith('[clip=False]'))
+      # T9.1 strong form on the real code: row 1 and the padding of the input are ignored
+      junk = xf + pair.modal_padding_mask() * rng.standard_normal(xf.shape)
+      ctx.evaluations += 1
+      e = dinoutil.relerr(np.asarray(gf.to_nodal(J_(junk))), np.asarray(gf.to_nodal(J_(xf))))
+      ctx.expect(e <= TOL, 'grid.to_nodal:junk-in-padding',
+                 f'values in row 1 / padding of the input change the synthesis (rel. {e:.3e})', inp)
+      # nodal padding of the input is ignored by the analysis
+      zj = zf + pair.nodal_padding_mask() * rng.standard_normal(zf.shape)
+      ctx.evaluations += 1
+      e = dinoutil.relerr(np.asarray(gf.to_modal(J_(zj))), np.asarray(gf.to_modal(J_(zf))))
+      ctx.expect(e <= TOL, 'grid.to_modal:junk-in-padding',
+                 f'values in the nodal padding change the analysis (rel. {e:.3e})', inp)
+
+
+def toggle_probe(ctx, jax, jnp, sh, rng, dims, spacing):
+  """Each tuning option toggled on its own against a fixed baseline: results must not change."""
+  M, L, N, J = dims
+  base = dict(base=2, stacked=False, reverse=False, precision='tensorfloat32')
+  variants = [('stacked', dict(stacked=True)), ('reverse', dict(reverse=True)), ('precision', dict(precision='highest')),
+              ('precision', dict(precision='float32')), ('base', dict(base=5)), ('base', dict(base=1)),
+              ('defaults', dict(base=None, stacked=None, reverse=None, precision=None)),
+              ('mesh', dict(mesh=make_mesh(jax))), ('mesh+reverse', dict(mesh=make_mesh(jax), reverse=True)),
+              ('mesh+reverse+stacked', dict(mesh=make_mesh(jax), reverse=True, stacked=True))]
+  p0 = Pair(sh, dims, spacing=spacing, radius=2.5, **base)
+  x = rng.standard_normal((2, 2 * M - 1, L)) * p0.gr.mask
+  z = rng.standard_normal((2, N, J))
+  ref_n = p0.unpadn(p0.gf.to_nodal(jnp.asarray(p0.iota(x))))
+  ref_m = p0.uniota(p0.gf.to_modal(jnp.asarray(p0.padn(z))))
+  for name, ch in variants:
+    inp = dict(dims=list(dims), spacing=spacing, baseline=base, toggled={k: (v if k != 'mesh' else True) for k, v in ch.items()})
+    ctx.case(('toggle', dims, spacing, name, repr(sorted(inp['toggled'].items()))), nontrivial=True)
+    ctx.dist[f'toggle:{name}'] += 1
+    with ctx.impl('toggle.exception', inp):
+      p1 = Pair(sh, dims, spacing=spacing, radius=2.5, **dict(base, **ch))
+      got_n = p1.unpadn(p1.gf.to_nodal(jnp.asarray(p1.iota(x))))
+      got_m = p1.uniota(p1.gf.to_modal(jnp.asarray(p1.padn(z))))
+      e1, e2 = dinoutil.relerr(got_n, ref_n), dinoutil.relerr(got_m, ref_m)
+      ctx.evaluations += 2
+      ctx.expect(e1 <= TOL, f'toggle.{name}:to_nodal', f'toggling {name} changes inverse_transform (rel. {e1:.3e})', inp)
+      ctx.expect(e2 <= TOL, f'toggle.{name}:to_modal', f'toggling {name} changes transform (rel. {e2:.3e})', inp)
+      full = np.asarray(p1.gf.to_modal(jnp.asarray(p1.padn(z))))
+      ctx.expect(not (full[..., p1.modal_padding_mask()] != 0).any(), f'toggle.{name}:padding',
+                 f'toggling {name}: row 1 / padding of the transform is not exactly zero', inp)
+
+
 def probes_grid(ctx, jax, jnp, sh):
-  pass
+  rng = ctx.rng
+  n = ctx.n(9, 60)
+  pairs = pair_stream(ctx, sh, jax, n, SMALL + LARGE[:2] if ctx.quick else SMALL + LARGE, with_mesh=True)
+  for pi, pair in enumerate(pairs):
+    for k, v in pair.desc().items():
+      ctx.dist[f'probe:{k}={v}'] += 1
+    probe_pair(ctx, jax, jnp, sh, pair, rng, batch=(pi % 3 == 0) or not ctx.quick, heavy=(pi % 2 == 0) or not ctx.quick)
+  for dims, spacing in ([((3, 4, 8, 4), 'gauss')] if ctx.quick else
+                        [((3, 4, 8, 4), 'gauss'), ((5, 6, 16, 8), 'equiangular'), ((8, 9, 24, 12), 'gauss'),
+                         ((4, 7, 9, 7), 'equiangular_with_poles')]):
+    toggle_probe(ctx, jax, jnp, sh, rng, dims, spacing)
+  # factory grids: the layouts of the named constructors
+  for fac in (['T21'] if ctx.quick else ['T21', 'T31', 'TL31', 'T42', 'TL47']):
+    with ctx.impl('factory.exception', dict(factory=fac)):
+      gr = getattr(sh.Grid, fac)()
+      M, L, N, J = gr.longitude_wavenumbers, gr.total_wavenumbers, gr.longitude_nodes, gr.latitude_nodes
+      pair = Pair(sh, (M, L, N, J), base=8, stacked=None)
+      x = rng.standard_normal((2, 2 * M - 1, L)) * gr.mask
+      inp = dict(factory=fac, base=8)
+      ctx.case(('factory', fac, x.tobytes()), nontrivial=True)
+      ctx.dist[f'probe:factory={fac}'] += 1
+      cmp_nodal(ctx, pair, pair.gf.to_nodal(jnp.asarray(pair.iota(x))), pair.gr.to_nodal(jnp.asarray(x)),
+                'grid.to_nodal', inp)
+      z = rng.standard_normal((2, N, J))
+      cmp_modal(ctx, pair, pair.gf.to_modal(jnp.asarray(pair.padn(z))), pair.gr.to_modal(jnp.asarray(z)),
+                'grid.to_modal', inp)
+  ctx.notes.append('cos_lat_d_dlat / sec_lat_d_dlat_cos2 (and grad/div/curl with clip=False) of the fast layout write '
+                   'a non-zero value into padding column L when modal_padding[1] > 0 (the weight table zeroes '
+                   'b[:, -1], the last *padded* column); the probes require exact zeros everywhere else and '
+                   'agreement on the unpadded block; clipping, to_nodal and the eigenvalue operators discard it')
 
 
-def probes_equations(ctx, jax, jnp, sh):
-  pass
+def _wn(M):
+  """the node counts of Grid.with_wavenumbers(M) (quadratic de-aliasing)"""
+  n = 3 * M + 1
+  return (M, M + 1, n, -(-n // 2))
+
+
+def cmp_state(ctx, pair, sf, sr, key, inp, tol=TOL):
+  """Pytrees of modal arrays (and scalars) must agree leaf by leaf after iota."""
+  import jax
+  lf, lr = jax.tree_util.tree_leaves(sf), jax.tree_util.tree_leaves(sr)
+  if len(lf) != len(lr):
+    ctx.fail(key + ':structure', f'{key}: results have different structure', inp)
+    return
+  for k, (a, b) in enumerate(zip(lf, lr)):
+    a, b = np.asarray(a), np.asarray(b)
+    if b.ndim < 2:
+      ctx.evaluations += 1
+      ctx.expect(dinoutil.relerr(a, b) <= tol, key, f'{key}: scalar leaf {k} differs', inp)
+      continue
+    yf, yr = a, b
+    ctx.evaluations += 1
+    if yf.shape != yr.shape[:-2] + (pair.R, pair.Lw):
+      ctx.fail(key + ':shape', f'{key}: leaf {k} has shape {yf.shape}, real {yr.shape}', inp)
+      continue
+    err = dinoutil.relerr(pair.uniota(yf), yr)
+    ctx.expect(err <= tol, key, f'{key}: leaf {k}: fast and real results differ after iota (rel. {err:.3e})', inp)
+    pm = pair.modal_padding_mask()
+    ctx.expect(not (yf[..., pm] != 0).any(), key + ':padding',
+               f'{key}: leaf {k}: row 1 / padding not exactly zero (max {np.abs(yf[..., pm]).max() if pm.any() else 0:.3e})',
+               inp)
+
+
+def probes_equations(ctx, jax, jnp, sh, n_configs, steps):
+  """explicit / implicit terms, implicit inverse and a short trajectory of the equation classes with the
+  implementation switched and the options toggled."""
+  from dinosaur import coordinate_systems as cs
+  from dinosaur import primitive_equations as pe
+  from dinosaur import scales
+  from dinosaur import shallow_water as sw
+  from dinosaur import sigma_coordinates as sc
+  from dinosaur import time_integration as ti
+  rng = ctx.rng
+  fixed = [dict(dims=_wn(4), base=8, stacked=True), dict(dims=_wn(5), base=3, stacked=False, reverse=True, precision='highest'),
+           dict(dims=_wn(6), base=None, stacked=None), dict(dims=(6, 8, 19, 10), base=4, stacked=True, spacing='equiangular'),
+           dict(dims=_wn(8), base=5, stacked=False, precision='float32')]
+  for ci in range(n_configs):
+    if ci < len(fixed):
+      c = dict(fixed[ci])
+    else:
+      c = dict(dims=_wn(int(rng.integers(3, 11))), base=[None, 1, 2, 3, 4, 8][int(rng.integers(6))],
+               stacked=[None, True, False][int(rng.integers(3))], reverse=[None, True, False][int(rng.integers(3))],
+               precision=[None, 'float32', 'highest'][int(rng.integers(3))],
+               spacing=str(rng.choice(['gauss', 'equiangular'])))
+    c.setdefault('radius', 1.0)
+    pair = Pair(sh, **c)
+    M, L, N, J = pair.dims
+    layers = int(rng.choice([1, 2, 3, 5]))
+    b, _ = dinoutil.random_boundaries(rng, layers, 'uneven' if layers > 1 else 'equidistant')
+    inp = dict(pair.desc(), layers=layers)
+    for k, v in pair.desc().items():
+      ctx.dist[f'eq:{k}={v}'] += 1
+    ctx.dist[f'eq:layers={layers}'] += 1
+    mask = pair.gr.mask
+
+    def rnd(*lead, amp=1.0):
+      return amp * rng.standard_normal(tuple(lead) + (2 * M - 1, L)) * mask
+
+    # ---------------- primitive equations (dry, with a tracer)
+    with ctx.impl('primitive.exception', inp):
+      tref = 250.0 + 30.0 * rng.random(layers)
+      oro = rnd(amp=0.1)
+      specs = pe.PrimitiveEquationsSpecs(radius=1.0, angular_velocity=1.0, gravity_acceleration=0.98,
+                                         ideal_gas_constant=1.3, water_vapor_gas_constant=2.1,
+                                         water_vapor_isobaric_heat_capacity=5.2, kappa=2.0 / 7, scale=scales.DEFAULT_SCALE)
+      eqs, states = [], []
+      raw = dict(vorticity=rnd(layers, amp=0.3), divergence=rnd(layers, amp=0.1), temperature_variation=rnd(layers, amp=3.0),
+                 log_surface_pressure=rnd(1, amp=0.05), q=rnd(layers, amp=0.01))
+      for g, conv in ((pair.gr, lambda a: a), (pair.gf, pair.iota)):
+        coords = cs.CoordinateSystem(horizontal=g, vertical=sc.SigmaCoordinates(b))
+        eqs.append(pe.PrimitiveEquations(tref, conv(oro), coords, specs))
+        states.append(pe.State(vorticity=jnp.asarray(conv(raw['vorticity'])), divergence=jnp.asarray(conv(raw['divergence'])),
+                               temperature_variation=jnp.asarray(conv(raw['temperature_variation'])),
+                               log_surface_pressure=jnp.asarray(conv(raw['log_surface_pressure'])),
+                               tracers={'q': jnp.asarray(conv(raw['q']))}))
+      ctx.case(('primitive', pair.key(), layers, raw['vorticity'].tobytes()), nontrivial=True,
+               sample=dict(inp, equation='PrimitiveEquations'))
+      eta = float(rng.choice([0.01, 0.1, 1.0]))
+      res = []
+      for eq, st in zip(eqs, states):
+        res.append((jax.jit(eq.explicit_terms)(st), jax.jit(eq.implicit_terms)(st),
+                    jax.jit(lambda s, e=eq: e.implicit_inverse(s, eta))(st)))
+      cmp_state(ctx, pair, res[1][0], res[0][0], 'PrimitiveEquations.explicit_terms', inp)
+      cmp_state(ctx, pair, res[1][1], res[0][1], 'PrimitiveEquations.implicit_terms', inp)
+      cmp_state(ctx, pair, res[1][2], res[0][2], 'PrimitiveEquations.implicit_inverse', dict(inp, eta=eta), tol=1e-9)
+      if steps:
+        dt = 1e-3
+        outs = []
+        for eq, st in zip(eqs, states):
+          step = jax.jit(ti.repeated(ti.imex_rk_sil3(eq, dt), steps))
+          outs.append(step(st))
+        cmp_state(ctx, pair, outs[1], outs[0], 'PrimitiveEquations.trajectory', dict(inp, steps=steps, dt=dt), tol=1e-8)
+
+    # ---------------- shallow water
+    with ctx.impl('shallow-water.exception', inp):
+      dens = np.sort(rng.uniform(0.5, 2.0, layers))
+      phi = rng.uniform(0.5, 5.0, layers)
+      swspecs = sw.ShallowWaterSpecs(densities=dens, radius=1.0, angular_velocity=0.5, gravity_acceleration=1.0,
+                                     scale=scales.DEFAULT_SCALE)
+      oro = rnd(amp=0.1)
+      raw = [rnd(layers, amp=0.3), rnd(layers, amp=0.1), rnd(layers, amp=0.5)]
+      res = []
+      for g, conv in ((pair.gr, lambda a: a), (pair.gf, pair.iota)):
+        coords = cs.CoordinateSystem(horizontal=g, vertical=sc.SigmaCoordinates.equidistant(layers))
+        eq = sw.ShallowWaterEquations(coords, swspecs, conv(oro), phi)
+        st = sw.State(*[jnp.asarray(conv(a)) for a in raw])
+        r = [jax.jit(eq.explicit_terms)(st), jax.jit(eq.implicit_terms)(st),
+             jax.jit(lambda s, e=eq: e.implicit_inverse(s, 0.05))(st)]
+        if steps:
+          r.append(jax.jit(ti.repeated(ti.imex_rk_sil3(eq, 1e-3), steps))(st))
+        res.append(r)
+      ctx.case(('shallow-water', pair.key(), layers, raw[0].tobytes()), nontrivial=True,
+               sample=dict(inp, equation='ShallowWaterEquations'))
+      names = ['explicit_terms', 'implicit_terms', 'implicit_inverse', 'trajectory']
+      for k in range(len(res[0])):
+        cmp_state(ctx, pair, res[1][k], res[0][k], f'ShallowWaterEquations.{names[k]}', inp,
+                  tol=TOL if k < 2 else 1e-8)
